@@ -155,7 +155,7 @@ func randCase(r *rand.Rand, op string, maxn int) abs.OpCase {
 	case "fragment", "fragment+unfragment":
 		byStart()
 		// keep the number of windows bounded: the sweep is O(maxEnd/f * n)
-		minF := maxEnd/300 + 1
+		minF := maxEnd/60 + 1 // at most 60 cut points over the whole list: keeps the model evaluation (connected components) fast
 		c.A = minF + r.Intn(maxEnd/2+2)
 		if n > 0 && r.Intn(3) == 0 {
 			// a period that divides a boundary exactly
